@@ -71,6 +71,22 @@ type ShTagOrder struct {
 	ShInner2
 }
 
+// ShIfaceVal: the embedded interface holds a struct *by value* (the serialisers read it like any other; the populate
+// helpers cannot write to it and must say so with an error)
+type IExtV interface{ MarkerV() }
+type ShValInner struct {
+	J1 *[]byte `cbor:"-20,keyasint" json:"j1"`
+	J2 *int64  `cbor:"-21,keyasint,omitempty" json:"j2,omitempty"`
+}
+
+func (ShValInner) MarkerV() {}
+
+type ShIfaceVal struct {
+	P *int64 `cbor:"1,keyasint,omitempty" json:"p,omitempty"`
+	IExtV
+	Q *[]byte `cbor:"2,keyasint,omitempty" json:"q,omitempty"`
+}
+
 // fieldRef: one settable pointer field reachable through embedding, in serialisation order
 type fieldRef struct {
 	v    reflect.Value
@@ -514,6 +530,65 @@ func runC15(r *Run, rng *Rng, thorough bool) {
 		}
 	}
 	_ = cbor.RawMessage{}
+	// (5) an embedded interface holding a struct by value: serialised like any embedded struct (its mandatory fields
+	// included, also when every field is empty); populate cannot write to it: an error, never a panic
+	{
+		x, bs := int64(5), []byte{1, 2}
+		for vi, src := range []*ShIfaceVal{{IExtV: ShValInner{}}, {P: &x, IExtV: ShValInner{J1: &bs}}, {IExtV: ShValInner{J1: &bs, J2: &x}, Q: &bs}, {P: &x}} {
+			var frs []fieldRef
+			walkFields(reflect.ValueOf(src).Elem(), &frs)
+			var want, jwant []string
+			for _, fr := range frs {
+				if fr.v.IsNil() && fr.omit {
+					continue
+				}
+				b, _ := extEM.Marshal(fr.v.Interface())
+				want = append(want, nInt(int64(fr.key)).String()+"="+hx(b))
+				jb, _ := json.Marshal(fr.v.Interface())
+				jwant = append(jwant, fr.name+"="+string(jb))
+			}
+			r.ImplOnly("shape-iface-by-value", false, fmt.Sprintf("ser-iface-by-value %d", vi))
+			var out, jout []byte
+			var err, jerr error
+			if p, what := safely(func() {
+				out, err = encoding.SerializeStructToCBOR(extEM, src)
+				jout, jerr = encoding.SerializeStructToJSON(src)
+			}); p || err != nil || jerr != nil {
+				r.Fail("serialize-fails", fmt.Sprintf("struct with an interface-held value: panic=%v (%v) err=%v/%v", p, what, err, jerr))
+				continue
+			}
+			if n, rest, perr := parseNode(out, 0); perr != nil || len(rest) != 0 || n.Kind != kMap || fmtEntries(n) != strings.Join(want, ",") {
+				r.Fail("union-in-order", fmt.Sprintf("interface-held value: CBOR %x, expected entries %s", out, strings.Join(want, ",")))
+			}
+			if jt, perr := parseJSONText(jout); perr != nil || jt.Kind != jObj {
+				r.Fail("one-object", fmt.Sprintf("JSON output is not a single object: %s", jout))
+			} else {
+				jgot := make([]string, len(jt.Mem))
+				for i, m := range jt.Mem {
+					jgot[i] = m.Name + "=" + m.Val.Text()
+				}
+				if strings.Join(jgot, ",") != strings.Join(jwant, ",") {
+					r.Fail("union-in-order-json", fmt.Sprintf("interface-held value: members %v, expected %v", jgot, jwant))
+				}
+			}
+			for _, viaJSON := range []bool{false, true} {
+				dst := &ShIfaceVal{IExtV: ShValInner{}}
+				var perr error
+				p, what := safely(func() {
+					if viaJSON {
+						perr = encoding.PopulateStructFromJSON(jout, dst)
+					} else {
+						perr = encoding.PopulateStructFromCBOR(extDM, out, dst)
+					}
+				})
+				if p {
+					r.Fail("populate-panics", fmt.Sprintf("populating a struct whose embedded interface holds a value panics (json=%v): %v", viaJSON, what))
+				} else if perr == nil && src.IExtV != nil && !reflect.DeepEqual(src, dst) {
+					r.Fail("roundtrip", "populate reports success but did not reproduce the value held by the interface")
+				}
+			}
+		}
+	}
 }
 
 // hasNonUTF8Text: a text value that JSON cannot carry unchanged (encoding/json substitutes U+FFFD)
